@@ -34,6 +34,8 @@ WORDS = ["type", "service", "info", "get", "returns", "import", "syntax", "group
 TEXTS = ["0", "007", "1", "18446744073709551616", "1s", "1ms", "1µs", "1ns", "1m", "1h", "1h30m", "1h30m5s", "1m5s10ms3µs7ns",
          "1h2m3s4ms5µs6ns", "1s1s", "1.5s", "-1", "1_000", "0x10", "1e3", "1ss", "1sm", "3sx", "5ns3", "2h1ms", "1h2h", "1m2h", "1s2m",
          "1ms2µ", "1µ", "1µs5ns", "1µs5", "1n", "1ns2s", "1m2", "1h2", "1s2", "1ms2", "1d", "1us", "1 s", "12ab", "1a",
+         "1s2ns", "1s2µs", "1s2ms", "1s2ms3", "1s2mx", "1s2m", "1m2ns", "1m2µs", "1m2ms", "1m2mx", "1m2x", "1m2s3ms", "1h2ns", "1h2µs",
+         "1h2x", "1h2m3", "1h2ms", "1h2s", "1ms2ns", "1ms2µs", "1ms2x", "1µs2ns", "1µs2x", "1µs2n", "1ns ", "1nsx", "1h2m3s4ms5µs6nsx",
          "interface{}", "interface{", "interface {}", "interfaces{}", "interface{}x", "xinterface{}", "interface{ }",
          "@doc", "@handler", "@server", "@docs", "@ doc", "@1", "@", "@@", "@doc(", "@Doc", "@handler1", "a@doc", "@doc@doc",
          "/**/", "/***/", "/* a */", "/* a * b / c */", "/* a", "/*/", "/*", "/* * ", "/* a */ b", "/* a\nb */ c\nd", "// a\nb",
